@@ -170,46 +170,46 @@ theorem compound_assignment_reads_target_first (fns : List FnDef) (n : Nat) (env
   simp only [evalExpr, hop, hx, bind_eq, R.bind_yields h, hv, hu]
   simp [R.yields, pure_eq, R.ok]
 
-/-- `match`: the arms are tried top to bottom. An arm whose pattern does not
-    match is skipped *without evaluating its guard*. -/
+/-- `match`: the arms are tried top to bottom. An arm whose pattern is not the
+    value's variant is skipped *without evaluating its guard*. -/
 theorem guard_of_unmatched_pattern_not_run (fns : List FnDef) (n : Nat) (env : Env) (v : Val)
-    (p : Pat) (g : Expr) (body : Block) (rest : Arms) (h : matchPat env v p = none) :
+    (p : Pat) (g : Expr) (body : Block) (rest : Arms) (h : patMatches v p = false) :
     evalArms fns (n + 1) env v (.armG p g body rest) = evalArms fns n env v rest := by
-  simp only [evalArms, h]
+  simp [evalArms, h]
 
 /-- A matching arm whose guard is `false`: the guard's calls, then the later arms
     (in the environment the guard left behind, without the arm's bindings). -/
 theorem guards_in_source_order (fns : List FnDef) (n : Nat) (env env1 env2 : Env) (v : Val)
     (p : Pat) (g : Expr) (body : Block) (rest : Arms) (t : Trace)
-    (hp : matchPat env v p = some env1)
+    (hm : patMatches v p = true) (hp : bindPat env v p = some env1)
     (hg : (evalExpr fns n env1 g).yields t (env2, .bool false)) :
     (evalArms fns (n + 1) env v (.armG p g body rest)).tr
       = t ++ (evalArms fns n (leave env env2) v rest).tr := by
-  simp only [evalArms, hp, bind_eq, R.bind_yields hg]
+  simp only [evalArms, hm, if_true, hp, bind_eq, R.bind_yields hg]
 
 /-- A matching arm whose guard is `true` (or that has no guard) is the selected
     arm: its body runs and no later arm or guard does. -/
 theorem only_the_selected_arm (fns : List FnDef) (n : Nat) (env env1 env2 : Env) (v : Val)
     (p : Pat) (g : Expr) (body : Block) (rest : Arms) (t : Trace)
-    (hp : matchPat env v p = some env1)
+    (hm : patMatches v p = true) (hp : bindPat env v p = some env1)
     (hg : (evalExpr fns n env1 g).yields t (env2, .bool true)) :
     (evalArms fns (n + 1) env v (.armG p g body rest)).tr = t ++ (evalBlock fns n env2 body).tr := by
-  simp only [evalArms, hp, bind_eq, R.bind_yields hg, R.bind_tr]
+  simp only [evalArms, hm, if_true, hp, bind_eq, R.bind_yields hg, R.bind_tr]
   congr 1
   unfold R.after
   cases (evalBlock fns n env2 body).out <;> simp [pure_eq, R.ok]
 
 theorem unguarded_arm_selected (fns : List FnDef) (n : Nat) (env env1 : Env) (v : Val)
-    (p : Pat) (body : Block) (rest : Arms) (hp : matchPat env v p = some env1) :
+    (p : Pat) (body : Block) (rest : Arms) (hm : patMatches v p = true) (hp : bindPat env v p = some env1) :
     (evalArms fns (n + 1) env v (.arm p body rest)).tr = (evalBlock fns n env1 body).tr := by
-  simp only [evalArms, hp, bind_eq, R.bind_tr]
+  simp only [evalArms, hm, if_true, hp, bind_eq, R.bind_tr]
   unfold R.after
   cases (evalBlock fns n env1 body).out <;> simp [pure_eq, R.ok]
 
 /-- The examinee of a `match` is evaluated exactly once, before any guard. -/
-theorem examinee_once (fns : List FnDef) (n : Nat) (env env' : Env) (s : Expr) (arms : Arms) (t : Trace) (v : Val)
+theorem examinee_once (fns : List FnDef) (n : Nat) (env env' : Env) (s : Expr) (isOpt : Bool) (arms : Arms) (t : Trace) (v : Val)
     (h : (evalExpr fns n env s).yields t (env', v)) :
-    (evalExpr fns (n + 1) env (.mtch s arms)).tr = t ++ (evalArms fns n env' v arms).tr := by
+    (evalExpr fns (n + 1) env (.mtch s isOpt arms)).tr = t ++ (evalArms fns n env' v arms).tr := by
   simp only [evalExpr, bind_eq, R.bind_yields h]
 
 /-- **The loop condition runs once more than the body**: a `while` loop that
@@ -373,7 +373,7 @@ example : (evalExpr [] 9 [(0, .int 4)] (.cassign .add 0 (.block (.stmt (.assign 
 -- examinee_once, guards in source order, only the selected arm:
 -- `match emit_o(1, 4) { Some(x1) if emit_b(2,false) => emit(3,0), _ if emit_b(4,true) => emit(5,0), Some(x2) => emit(6,0), None => emit(7,0) }`
 def demoMatch : Expr :=
-  .mtch (.host 4 (.cons (.lit (.int 1)) (.cons (.lit (.int 4)) .nil)))
+  .mtch (.host 4 (.cons (.lit (.int 1)) (.cons (.lit (.int 4)) .nil))) true
     (.armG (.variant 0 [1]) (emitB 2 false) (.last (emitI 3 0))
     (.armG .wild (emitB 4 true) (.last (emitI 5 0))
     (.arm (.variant 0 [2]) (.last (emitI 6 0))
@@ -381,9 +381,9 @@ def demoMatch : Expr :=
 example : (evalExpr [] 12 [] demoMatch).tr
     = [⟨4, [.int 1, .int 4]⟩, ⟨1, [.int 2, .bool false]⟩, ⟨1, [.int 4, .bool true]⟩, ⟨0, [.int 5, .int 0]⟩] := by decide
 -- guard_of_unmatched_pattern_not_run: on `None` the first guard is not evaluated
-example : matchPat [] (.opt none) (.variant 0 [1]) = none := by decide
+example : patMatches (.opt none) (.variant 0 [1]) = false := by decide
 -- unguarded_arm_selected
-example : matchPat [] (.opt (some 4)) (.variant 0 [2]) = some [(2, .int 4)] := by decide
+example : patMatches (.opt (some 4)) (.variant 0 [2]) = true ∧ bindPat [] (.opt (some 4)) (.variant 0 [2]) = some [(2, .int 4)] := by decide
 
 -- loop_condition_runs_once_more: `while emit_b(1, x0 < 2) { emit_u(2); x0 = x0 + 1; }` from x0 = 0
 def demoLoopCond : Expr := .host 1 (.cons (.lit (.int 1)) (.cons (.bin .lt (.var 0) (.lit (.int 2))) .nil))
